@@ -149,9 +149,16 @@ func checkPrim(c PrimCase) error {
 	}
 	for _, mode := range []string{"memory", "one-byte", "pieces"} {
 		var d *types.Decoder
+		var src []byte
+		type kept struct {
+			got, want []byte
+			i         int
+		}
+		var keep []kept
 		switch mode {
 		case "memory":
-			d = types.NewBufDecoder(got)
+			src = append([]byte(nil), got...)
+			d = types.NewBufDecoder(src)
 		default:
 			d = types.NewDecoder(io.LimitedReader{R: &piecewiseReader{data: got, seed: c.Seed ^ 0x9e, oneByte: mode == "one-byte"}, N: int64(len(got))})
 		}
@@ -177,9 +184,11 @@ func checkPrim(c PrimCase) error {
 					return bad("ReadTime = %v, wrote unix %d", v, it.op.U)
 				}
 			case "bytes":
-				if v := d.ReadBytes(); !bytes.Equal(v, it.data) {
+				v := d.ReadBytes()
+				if !bytes.Equal(v, it.data) {
 					return bad("ReadBytes returned %d bytes (first difference at %d)", len(v), firstDiff(v, it.data))
 				}
+				keep = append(keep, kept{v, it.data, i})
 			case "string":
 				if v := d.ReadString(); v != string(it.data) {
 					return bad("ReadString returned %d bytes (first difference at %d)", len(v), firstDiff([]byte(v), it.data))
@@ -192,6 +201,15 @@ func checkPrim(c PrimCase) error {
 			}
 			if d.Err() != nil {
 				return bad("decoder error %v", d.Err())
+			}
+		}
+		// what ReadBytes returned is the caller's: it survives the reuse of the slice the decoder read from
+		for i := range src {
+			src[i] ^= 0xA5
+		}
+		for _, k := range keep {
+			if !bytes.Equal(k.got, k.want) {
+				return stats.Failf("C11/primitives/read-aliases-input", "item %d: the %d bytes ReadBytes returned changed when the slice given to NewBufDecoder was overwritten", k.i, len(k.want))
 			}
 		}
 		// the stream is exhausted: one more read fails, returns zero, and the error stays
